@@ -56,13 +56,10 @@ class Pass:
     def fallbacks(self):
         if self.street.draw_status or not self.street.hole_dealing_statuses:
             return [False]
+        # a burnt card stays available (it joins the reserve the deck is replenished from), so the
+        # street is covered exactly when the hole cards alone fit into what is available
         need = len(self.street.hole_dealing_statuses) * len(self.live)
-        burn = 1 if self.street.card_burning_status else 0
-        if need > self.avail:
-            return [True]
-        if need + burn <= self.avail:
-            return [False]
-        return [False, True]
+        return [need > self.avail]
 
     def mismatch(self, fallback):
         st = self.street
